@@ -57,6 +57,11 @@ def holds(leaf, ev):
         before = len(ev.leaves)
         try:
             v = ev.ev(ct)
+        except EvalRaises as exc:
+            if pending is None:
+                # evaluating the test itself raises at this point (float(10**400) ...): the code raises here, whatever path it was on
+                raise DecidedRaise('%s raises %s' % (show(ct)[:80], exc))
+            continue
         except NotEvaluable as exc:
             pending = pending or 'condition %s not evaluable (%s)' % (show(ct)[:80], exc)
             continue
